@@ -16,4 +16,6 @@ for ID in $(jq -r '.checks[].property_id' "$D/MANIFEST.json"); do
   case "$id" in c02|c11) RACE=-race;; *) RACE=;; esac
   $GO test -c -tags verif -vet=off $RACE -o "$D/.build/$id.test" "./$p" || exit 1
 done
+# warm the build cache of the small go <= 1.23 module (fault injection at the random source, started by the C05 monitor)
+(cd "$D/harness123" && go test -count=1 -run '^$' ./randfault/ >/dev/null 2>&1) || true
 echo setup ok
